@@ -167,3 +167,74 @@ Proof.
     destruct Ex as (t' & Gt' & Et' & _); [congruence|]. exists t'. auto.
   - cbn [fst snd o_emit out_err]. split; [eapply get_traffic_keeps; eauto|]. split; auto. discriminate.
 Qed.
+
+(** ---- the cash-out receipt path ---- *)
+Definition keeps_except (v v' : vstate) (a : addr) : Prop :=
+  forall a' x, a' <> a -> rchain_of v a' = Some x -> rchain_of v' a' = Some x.
+Lemma keeps_to_except v v' a : keeps_cashed v v' -> keeps_except v v' a.
+Proof. intros K a' x _. apply K. Qed.
+Lemma keeps_except_trans v1 v2 v3 a : keeps_except v1 v2 a -> keeps_except v2 v3 a -> keeps_except v1 v3 a.
+Proof. intros A B a' x Hne Hx. auto. Qed.
+Lemma keeps_same_recs (v v' : vstate) : recs v' = recs v -> keeps_cashed v v'.
+Proof. intros E a x. unfold rchain_of. now rewrite E. Qed.
+
+Lemma set_status_keeps v a st : keeps_cashed v (set_status VM v a st).
+Proof.
+  unfold set_status. destruct (get a (recs v)) as [t|] eqn:G; [|apply keeps_cashed_refl].
+  unfold put_traffic, with_recs. eapply (set_keeps v); [exact G|reflexivity|reflexivity].
+Qed.
+
+Lemma chain_update_V v a tr :
+  let v2 := chain_update VM v a tr in
+  keeps_except v v2 a /\ (forall x, snd tr = Some x -> rchain_of v2 a = Some x) /\
+  (snd tr = None -> rchain_of v2 a = Some (get0 a (d_chain_retrieve (dk v)))).
+Proof.
+  cbn zeta. unfold chain_update. destruct (get_traffic VM v a) as [t v1] eqn:E.
+  destruct (get_traffic_V _ _ _ _ E) as (G1 & G2 & _ & _ & _ & _ & _ & _ & Ed).
+  assert (K : forall (v2 : vstate) t2, recs v2 = set a t2 (recs v1) -> keeps_except v v2 a).
+  { intros v2 t2 Er a' x Hne Hx. unfold rchain_of in *. rewrite Er, get_set_other, G2 by auto. exact Hx. }
+  destruct (fst tr) as [y|], (snd tr) as [x|]; cbn [alloc VM dk d_chain_retrieve d_chain_transfer]; rewrite ?Ed;
+    (split; [eapply K; reflexivity|]); unfold rchain_of; cbn [recs]; rewrite get_set_same; cbn [option_map f_rchain];
+    split; intros; try discriminate; try congruence; auto.
+Qed.
+
+Lemma cashout_V v p ck rc bs tr bp :
+  let v' := snd (cashout VM v p ck rc bs tr bp) in
+  (forall a' x, get p (m_pb v) <> Some a' -> rchain_of v a' = Some x -> rchain_of v' a' = Some x) /\
+  (forall a b x, get p (m_pb v) = Some a -> ck = true -> rc = Some 1 -> bs = Some b -> snd tr = Some x -> rchain_of v' a = Some x) /\
+  (ck = false \/ rc <> Some 1 \/ bs = None -> keeps_cashed v v').
+Proof.
+  cbn zeta. unfold cashout. destruct (get p (m_pb v)) as [a|] eqn:Gp.
+  2:{ cbn [snd]. split; [auto|]. split; [discriminate|]. intros _; apply keeps_cashed_refl. }
+  destruct (get_traffic VM v a) as [t0 v1] eqn:E1. pose proof (get_traffic_keeps _ _ _ _ E1) as K1.
+  destruct ck; cbn [negb].
+  2:{ cbn [snd]. split; [intros a' x _; apply K1|]. split; [discriminate|]. intros _; exact K1. }
+  pose proof (set_status_keeps v1 a 1) as K2. pose proof (set_status_keeps (set_status VM v1 a 1) a 0) as K3.
+  remember (set_status VM (set_status VM v1 a 1) a 0) as v2 eqn:Ev2. clear Ev2.
+  assert (K12 : keeps_cashed v v2) by (eapply keeps_cashed_trans; [exact K1|eapply keeps_cashed_trans; eauto]).
+  assert (Hdef : (forall a' x, Some a <> Some a' -> rchain_of v a' = Some x -> rchain_of v2 a' = Some x) /\
+                 (forall a0 b x, Some a = Some a0 -> true = true -> rc = Some 1 -> bs = Some b -> snd tr = Some x -> rchain_of v2 a0 = Some x) \/ True).
+  { right. exact Logic.I. } clear Hdef.
+  destruct rc as [[|[q|q|]]|]; cbn [snd];
+    try (split; [intros a' x _; apply K12|]; split; [discriminate|]; intros _; exact K12).
+  destruct (get_traffic VM v2 a) as [t2 v3] eqn:E3. pose proof (get_traffic_keeps _ _ _ _ E3) as K4.
+  unfold with_dk. cbn [read VM].
+  destruct bs as [b|].
+  2:{ cbn [snd]. assert (K : keeps_cashed v3 {| hp := hp v3; recs := recs v3; bal := bal v3; m_pb := m_pb v3; m_bp := m_bp v3;
+            dk := {| d_pb := d_pb (dk v3); d_bp := d_bp (dk v3); d_last_send := d_last_send (dk v3); d_last_recv := d_last_recv (dk v3);
+                     d_retrieve := d_retrieve (dk v3); d_transfer := d_transfer (dk v3);
+                     d_chain_retrieve := set a (f_rcheque t2) (d_chain_retrieve (dk v3));
+                     d_chain_transfer := set a (f_tcheque t2) (d_chain_transfer (dk v3)) |} |}) by (apply keeps_same_recs; reflexivity).
+      assert (K' := keeps_cashed_trans _ _ _ K12 (keeps_cashed_trans _ _ _ K4 K)).
+      split; [intros a' x _; apply K'|]. split; [discriminate|]. intros _; exact K'. }
+  cbn [alloc VM hp recs bal m_pb m_bp dk snd].
+  match goal with |- context [chain_update VM ?va a tr] => remember va as v4 eqn:Ev4 end.
+  assert (K5 : keeps_cashed v3 v4) by (subst v4; apply keeps_same_recs; reflexivity). clear Ev4.
+  destruct (chain_update_V v4 a tr) as (X1 & X2 & _). cbn zeta in *.
+  pose proof (update_peer_balance_keeps (chain_update VM v4 a tr) a bp) as K6.
+  assert (K14 : keeps_cashed v v4) by (eapply keeps_cashed_trans; [exact K12|eapply keeps_cashed_trans; eauto]).
+  split; [|split].
+  - intros a' x Hne Hx. apply K6. apply X1; [congruence|]. apply K14. exact Hx.
+  - intros a0 b0 x Ea _ _ _ Ex. inversion Ea; subst a0. apply K6. apply X2. exact Ex.
+  - intros [H|[H|H]]; congruence.
+Qed.
